@@ -63,3 +63,14 @@ func simMemTableSize() uint64 {
 	}
 	return 32 * 1024 * 1024
 }
+
+// SimTermStoreFault, when set, may make storing a term fail before anything is written (a usually-successful
+// call returning an error: the engine was closed under the caller, the write was refused).
+var SimTermStoreFault func(shard int64, newTerm int64) error
+
+func simTermStoreFault(shard int64, newTerm int64) error {
+	if SimTermStoreFault != nil {
+		return SimTermStoreFault(shard, newTerm)
+	}
+	return nil
+}
